@@ -190,6 +190,15 @@ func c07LenArg(v ssa.Value) (ssa.Value, bool) {
 func c07SameLen(v ssa.Value) ssa.Value {
 	for i := 0; i < 8; i++ {
 		switch x := v.(type) {
+		case *ssa.UnOp:
+			// every load of a cell that is written exactly once (a parameter or
+			// local captured by closures, a field of a local struct) is that value
+			if x.Op == token.MUL {
+				if val, _ := c07CellValue(x); val != nil {
+					v = val
+					continue
+				}
+			}
 		case *ssa.ChangeType:
 			v = x.X
 			continue
@@ -243,7 +252,8 @@ func (e *c07Engine) edgeFact(k c07flowKey, from, to *ssa.BasicBlock) (c07B, bool
 func (e *c07Engine) isSubject(k c07flowKey, v ssa.Value) bool {
 	switch k.kind {
 	case c07Len:
-		if a, ok := c07LenArg(v); ok {
+		// (a length kept in a write-once local cell, e.g. a captured l := len(x))
+		if a, ok := c07LenArg(c07Settle(v)); ok {
 			return c07SameLen(a) == c07SameLen(k.v)
 		}
 	case c07Int:
@@ -1241,7 +1251,30 @@ func (e *c07Engine) at(k c07flowKey, at *ssa.BasicBlock) c07B {
 	if k.kind == c07Int {
 		unknown = c07B{Lo: c07NegInf}
 	}
+	// a load of a write-once cell stands for the value stored there: the
+	// subject is that value (guards on any other load of the cell count), and
+	// when the value lives in an enclosing function the subject exists from
+	// the entry of the closure
+	var defOverride *ssa.BasicBlock
+	if u, ok := k.v.(*ssa.UnOp); ok && u.Op == token.MUL && !k.free {
+		var canon ssa.Value = k.v
+		if k.kind == c07Len {
+			canon = c07SameLen(k.v)
+		} else {
+			canon = c07Settle(k.v)
+		}
+		if canon != k.v {
+			if cf, _ := c07DefBlock(canon); cf != nil && at != nil && cf == at.Parent() {
+				k.v = canon
+			} else if at != nil && u.Parent() == at.Parent() && len(at.Parent().Blocks) > 0 {
+				defOverride = at.Parent().Blocks[0]
+			}
+		}
+	}
 	fn, def := c07DefBlock(k.v)
+	if defOverride != nil && fn == defOverride.Parent() {
+		def = defOverride
+	}
 	if fn == nil {
 		return unknown
 	}
@@ -1356,7 +1389,7 @@ func (e *c07Engine) intrinsicLen(v ssa.Value) c07B {
 			}
 			// a local cell (captured variable, field of a local struct) written once
 			if val, st := c07CellValue(x); val != nil {
-				b := e.lenAt(val, st.Block())
+				b := e.lenAt(val, c07CellPoint(x, st))
 				return b
 			}
 		}
@@ -1430,7 +1463,53 @@ func c07CellUses(a *ssa.Alloc) (stores []*ssa.Store, ok bool) {
 
 // c07CellValue: load reads a local cell that is written exactly once (same
 // path), by a store that precedes the load; returns the stored value.
+// c07CellPoint: the program point (a block of the storing function) whose
+// facts about the stored value hold at the load: the load's own block when it
+// is in the storing function (the store dominates it), and for a load inside
+// a closure the block that creates the (outermost) closure — the value never
+// changes, so what is known when the closure is made is known when it runs.
+func c07CellPoint(load *ssa.UnOp, st *ssa.Store) *ssa.BasicBlock {
+	if load.Parent() == st.Parent() {
+		return load.Block()
+	}
+	for f := load.Parent(); f != nil && f.Parent() != nil; f = f.Parent() {
+		if f.Parent() != st.Parent() {
+			continue
+		}
+		var res *ssa.BasicBlock
+		n := 0
+		for _, b := range st.Parent().Blocks {
+			for _, in := range b.Instrs {
+				if mc, ok := in.(*ssa.MakeClosure); ok && mc.Fn == ssa.Value(f) {
+					res = b
+					n++
+				}
+			}
+		}
+		if n == 1 {
+			return res
+		}
+	}
+	return st.Block()
+}
+
+type c07CellRes struct {
+	val ssa.Value
+	st  *ssa.Store
+}
+
+var c07CellMemo = map[*ssa.UnOp]c07CellRes{}
+
 func c07CellValue(load *ssa.UnOp) (ssa.Value, *ssa.Store) {
+	if r, ok := c07CellMemo[load]; ok {
+		return r.val, r.st
+	}
+	v, st := c07CellValue0(load)
+	c07CellMemo[load] = c07CellRes{v, st}
+	return v, st
+}
+
+func c07CellValue0(load *ssa.UnOp) (ssa.Value, *ssa.Store) {
 	root, path, ok := c07AddrPath(load.X, 0)
 	if !ok {
 		return nil, nil
@@ -1974,7 +2053,7 @@ func (e *c07Engine) intrinsicInt0(v ssa.Value) c07B {
 	case *ssa.UnOp:
 		if x.Op == token.MUL {
 			if val, st := c07CellValue(x); val != nil {
-				return e.intAt(val, st.Block())
+				return e.intAt(val, c07CellPoint(x, st))
 			}
 			if lo, _, ok := e.intConsts(x, 0); ok {
 				return c07B{Lo: lo, Why: "field holding one of a fixed set of constants"}
@@ -2009,6 +2088,11 @@ func c07Depends(v, root ssa.Value, depth int) bool {
 	if v == root {
 		return true
 	}
+	if u, ok := v.(*ssa.UnOp); ok && u.Op == token.MUL {
+		if val, _ := c07CellValue(u); val != nil {
+			return c07Depends(val, root, depth)
+		}
+	}
 	if depth <= 0 {
 		return false
 	}
@@ -2024,12 +2108,12 @@ func c07Depends(v, root ssa.Value, depth int) bool {
 	// access comes first)
 	switch x := v.(type) {
 	case *ssa.IndexAddr:
-		if x.X == root {
+		if x.X == root || c07SameLen(x.X) == root {
 			return false
 		}
 		return c07Depends(x.X, root, depth-1)
 	case *ssa.Index:
-		if x.X == root {
+		if x.X == root || c07SameLen(x.X) == root {
 			return false
 		}
 		return c07Depends(x.X, root, depth-1)
